@@ -182,7 +182,7 @@ def run_impl_sharded(binary, args, inputs, workers=None, per_case_timeout=20.0, 
         while cur < hi:
             p = start(cur, hi)
             data = "\n".join(inputs[cur:hi]) + "\n"
-            budget = max(60.0, per_case_timeout + 0.01 * (hi - cur))
+            budget = max(600.0, per_case_timeout + 0.02 * (hi - cur))  # generous: a loaded machine must not turn into a HANG verdict
             try:
                 out, err = p.communicate(data, timeout=budget)
                 tag = "CRASH"
